@@ -296,7 +296,7 @@ func (w *World) Start(ctx context.Context) error {
 	w.ChainTime = env.NewChainTime(ctx, w.Chain)
 	cp := &env.ChainProviders{C: w.Chain}
 	sgn, err := standardsigner.New(ctx, standardsigner.WithLogLevel(zerolog.Disabled), standardsigner.WithMonitor(nullmetrics.New()),
-		standardsigner.WithClientMonitor(nullmetrics.New()), standardsigner.WithSpecProvider(cp), standardsigner.WithDomainProvider(cp))
+		standardsigner.WithClientMonitor(nullmetrics.New()), standardsigner.WithSpecProvider(cp), standardsigner.WithDomainProvider(&faultyDomains{cp: cp, w: w}))
 	if err != nil {
 		return err
 	}
@@ -698,4 +698,24 @@ func (n *Node) SubmitProposalPreparations(ctx context.Context, preps []*apiv1.Pr
 	_, err := n.w.Script.Do(ctx, n.Party, "SubmitProposalPreparations", nil)
 	simrt.Crit(func() { rec.EndStep, rec.EndT, rec.OK = simrt.Step(), simrt.Now(), err == nil })
 	return err
+}
+
+// faultyDomains is the node's domain provider with scripted outcomes ("chain/GenesisDomain", "chain/Domain").
+type faultyDomains struct {
+	cp *env.ChainProviders
+	w  *World
+}
+
+func (d *faultyDomains) Domain(ctx context.Context, dt phase0.DomainType, epoch phase0.Epoch) (phase0.Domain, error) {
+	if _, err := d.w.Script.Do(ctx, "chain", "Domain", nil); err != nil {
+		return phase0.Domain{}, err
+	}
+	return d.cp.Domain(ctx, dt, epoch)
+}
+
+func (d *faultyDomains) GenesisDomain(ctx context.Context, dt phase0.DomainType) (phase0.Domain, error) {
+	if _, err := d.w.Script.Do(ctx, "chain", "GenesisDomain", nil); err != nil {
+		return phase0.Domain{}, err
+	}
+	return d.cp.GenesisDomain(ctx, dt)
 }
